@@ -15,7 +15,8 @@ package routing
 //@   at call dyn:FunctionParser#1 assert jMatchSet < len(keyOrder) - 1 ==> overrideOutbound.Name == consts.OutboundLogicalOr.String()
 //@   at call dyn:FunctionParser#1 assert jMatchSet == len(keyOrder) - 1 && iFunc < len(rule.AndFunctions) - 1 ==> overrideOutbound.Name == consts.OutboundLogicalAnd.String()
 //@   at call dyn:FunctionParser#1 assert jMatchSet == len(keyOrder) - 1 && iFunc == len(rule.AndFunctions) - 1 ==> overrideOutbound.Name == outbound.Name
-//@   at call dyn:FunctionParser#1 assert a1 == f && a2 == key
+//@   at call dyn:FunctionParser#1 assert a1 == f && a2 == key && a3 == paramValueGroups[key]
+//@   ensures err == nil ==> calls("loop#1") == 1
 
 // The outbound of a rule: mark is the parsed 32-bit value of the `mark` parameter, must is set exactly by
 // a bare `must` parameter, and any other parameter is an error (never silently ignored).
